@@ -112,7 +112,7 @@ class EInfoAdapter:
             # data clauses: original type and args; the text names the raising frame
             exc = _unwrap(self.ei.exception)
             want_fn = '_raise' if d >= 2 else 'capture'
-            ok = (self.ei.type is type(exc)) and (want_fn in self.ei.traceback) \
+            ok = (self.ei.type is type(exc)) and ((', in %s\n' % want_fn) in self.ei.traceback) \
                 and ('Traceback (most recent call last)' in self.ei.traceback) \
                 and str(self.ei) == self.ei.traceback
             if kind in ('exc0', 'exc1'):
